@@ -24,6 +24,9 @@ fn load_test_fact() {
     let grow = (count + 1) as f32 > capacity as f32 * MAX_LOAD;
     if !grow {
         assert!(count + 1 < capacity);
+    } else {
+        // growth is asked for only when at least half of the slots would be used
+        assert!(count + 1 >= capacity / 2);
     }
     kani::cover!(!grow, "no-growth case reachable");
     kani::cover!(grow, "growth case reachable");
